@@ -13,6 +13,9 @@ Static clauses:
   TAGS     each builder uses the redeemer tag of its purpose
   R-CTX    the lowering of a redeemer-carrying block hands its fields the context it was given: no block-level
            `enter_*_expr()` (a policy name in a redeemer would be read as a script address)
+  (forms)  a Redeemer built by a generic builder whose tag is a parameter is judged per caller (builder and index closure
+           inlined); a searched list that is a field of a crate type is sorted by construction when every aggregate of the type
+           wraps a list with a dominating ledger-order sort and the field is never mutably borrowed / assigned elsewhere
 Not decided: equality of redeemer data with the template expression (C09/C01); that the ledger's canonical order is
 (txid, index) / bytewise policy / reward-account order (domain fact, trusted).
 """
@@ -142,6 +145,35 @@ def sortedness(F, f, du, cfg, pos_bb, slice_op, depth=0):
             it = g[0] if g else ""
             if ("btree_map::" in it or "std::collections::BTreeMap<" in it or "btree::map" in it) and "std::vec::IntoIter" not in it and "std::slice::Iter" not in it and "hash_map" not in it:
                 return True, "collected from a BTreeMap iteration (keys in order)"
+    # (d) the list is a field of a type of the crate that is only ever built around a sorted list (`SortedInputs::of(body)` sorts,
+    # then wraps): every construction of that type is judged at its site, and nothing borrows the field mutably elsewhere
+    for base, fld in sorted(_adt_fields_on_path(F, f, du, slice_op)):
+        if True:
+            adt = F.adts.get(base)
+            if adt is None or len(adt["variants"]) != 1:
+                continue
+            sites, bad = 0, None
+            for g in F.fns.values():
+                if g["crate"] != "tx3_cardano" or is_derive(g):
+                    continue
+                dg = cg = None
+                for bj, sj, st in mir.stmts(g):
+                    rv = st["rv"]
+                    if rv["k"] == "agg" and rv.get("adt") == base and fld in [str(x) for x in rv.get("fields", [])]:
+                        sites += 1
+                        dg = dg or mir.DefUse(g)
+                        cg = cg or mir.CFG(g)
+                        okk, why = sortedness(F, g, dg, cg, bj, rv["ops"][[str(x) for x in rv["fields"]].index(fld)], depth + 1)
+                        if not okk:
+                            bad = "%s builds a %s around a list that is not in ledger order: %s" % (g["path"].split("::")[-1], base.split("::")[-1], why)
+                    if rv["k"] in ("ref", "rawptr") and rv.get("mut") and any(q[0] == "f" and q[2] == base and str(q[1]) == fld for q in rv["pl"]["p"]):
+                        bad = "%s borrows %s.%s mutably after construction" % (g["path"].split("::")[-1], base.split("::")[-1], fld)
+                    if any(q[0] == "f" and q[2] == base and str(q[1]) == fld for q in st["lhs"]["p"]):
+                        bad = "%s assigns to %s.%s after construction" % (g["path"].split("::")[-1], base.split("::")[-1], fld)
+            if bad:
+                return False, bad
+            if sites:
+                return True, "field of %s, which is built only around a sorted list (%d construction site(s) judged)" % (base.split("::")[-1], sites)
     # (c) the slice is a parameter: every caller must pass a sorted slice
     if depth < 2:
         params = [o for o in target if o.kind == "arg"]
@@ -165,6 +197,36 @@ def sortedness(F, f, du, cfg, pos_bb, slice_op, depth=0):
     return False, "no dominating sort and not a BTreeMap iteration"
 
 
+def _adt_fields_on_path(F, f, du, op):
+    """(adt, field) of the crate's own types whose field is projected on the way back from `op` (through copies, borrows,
+    iter()/deref()/as_slice())"""
+    out = set()
+    pl0 = mir.op_place(op)
+    st = [pl0] if pl0 is not None else []
+    seen = set()
+    PASS = ("core::slice::<impl [T]>::iter", "std::vec::Vec::<T, A>::as_slice", "std::ops::Deref::deref", "std::iter::IntoIterator::into_iter")
+    while st:
+        pl = st.pop()
+        for q in pl["p"]:
+            if q[0] == "f" and len(q) > 2 and str(q[2]).startswith("tx3_cardano") and str(q[2]) in F.adts:
+                out.add((str(q[2]), str(q[1])))
+        if pl["l"] in seen:
+            continue
+        seen.add(pl["l"])
+        for d in du.defs.get(pl["l"], []):
+            if d[0] == "call":
+                if (d[3].get("callee") or "") in PASS and d[3]["args"]:
+                    p2 = mir.op_place(d[3]["args"][0])
+                    if p2 is not None:
+                        st.append(p2)
+            else:
+                rv = d[3]["rv"]
+                p2 = mir.op_place(rv.get("op")) if rv["k"] in ("use", "cast") else (rv.get("pl") if rv["k"] in ("ref", "rawptr") else None)
+                if p2 is not None:
+                    st.append(p2)
+    return out
+
+
 TAG_FIELD = {"Spend": "inputs", "Mint": "mint", "Reward": "withdrawals", "Cert": "certificates", "Vote": "voting_procedures", "Propose": "proposal_procedures"}
 
 
@@ -182,12 +244,36 @@ def r_index(F, res):
     its tag (Spend: body.inputs, Mint: body.mint, Reward: body.withdrawals) - the ledger numbers every item of that collection,
     also those that carry no redeemer - and must say so in its tag.  Found by role: any aggregate of pallas' Redeemer."""
     from .. import e9_attrib as e9
+    from ..common import callers_index
     n = 0
+
+    def judge(f, s, key, w):
+        rv = s["rv"]
+        du = mir.DefUse(f)
+        tags = set()
+        torg = mir.provenance(f, du, rv["ops"][rv["fields"].index("tag")])
+        for o in torg:
+            if o.kind == "agg" and o.rv.get("adt", "").endswith("RedeemerTag"):
+                tags.add(o.rv["variant"])
+        if not tags and torg and all(o.kind == "arg" for o in torg):
+            return None      # the tag is a parameter: judged where the builder is called
+        flds = e9.slice_adt_fields(F, f, rv["ops"][rv["fields"].index("index")], "TransactionBody")
+        if len(tags) != 1:
+            res.add([finding("R-INDEX", key, w, "the redeemer's tag is not a single constant (%s)" % sorted(tags))])
+            return True
+        tag = next(iter(tags))
+        want = TAG_FIELD.get(tag)
+        if want in flds:
+            res.add([ok("R-INDEX", key, w, "tag %s; the index is computed from compiled_body.%s" % (tag, want))])
+        elif flds:
+            res.add([finding("R-INDEX", key, w, "a redeemer tagged %s takes its index from compiled_body.%s instead of compiled_body.%s" % (tag, "/".join(sorted(flds)), want))])
+        else:
+            res.add([finding("R-INDEX", key, w, "a redeemer tagged %s takes its index from something other than the compiled body's `%s` collection (e.g. a count among the items that have redeemers): the ledger numbers every item of body.%s, so the redeemer points at another item as soon as one without redeemer sorts before it" % (tag, want, want))])
+        return True
     for p in sorted(F.fns):
         f = F.fns[p]
         if f["crate"] != "tx3_cardano" or f.get("derived"):
             continue
-        du = None
         k = 0
         for bi, si, s in mir.stmts(f):
             rv = s["rv"]
@@ -195,26 +281,32 @@ def r_index(F, res):
                 continue
             n += 1
             k += 1
-            du = du or mir.DefUse(f)
             owner = f.get("owner") or p
             key = "%s|redeemer #%d: index counts the body's items of its tag" % (owner, k)
-            tags = set()
-            for o in mir.provenance(f, du, rv["ops"][rv["fields"].index("tag")]):
-                if o.kind == "agg" and o.rv.get("adt", "").endswith("RedeemerTag"):
-                    tags.add(o.rv["variant"])
-            flds = e9.slice_adt_fields(F, f, rv["ops"][rv["fields"].index("index")], "TransactionBody")
             w = where(f, s["line"])
-            if len(tags) != 1:
-                res.add([finding("R-INDEX", key, w, "the redeemer's tag is not a single constant (%s)" % sorted(tags))])
+            if judge(f, s, key, w) is not None:
                 continue
-            tag = next(iter(tags))
-            want = TAG_FIELD.get(tag)
-            if want in flds:
-                res.add([ok("R-INDEX", key, w, "tag %s; the index is computed from compiled_body.%s" % (tag, want))])
-            elif flds:
-                res.add([finding("R-INDEX", key, w, "a redeemer tagged %s takes its index from compiled_body.%s instead of compiled_body.%s" % (tag, "/".join(sorted(flds)), want))])
-            else:
-                res.add([finding("R-INDEX", key, w, "a redeemer tagged %s takes its index from something other than the compiled body's `%s` collection (e.g. a count among the items that have redeemers): the ledger numbers every item of body.%s, so the redeemer points at another item as soon as one without redeemer sorts before it" % (tag, want, want))])
+            # a generic builder (`redeemer_with_tag(tag, payload, locate)`): each caller is judged with the builder - and the
+            # closure it hands over for the index - inlined
+            callers = [(g, ct) for g, ct in callers_index(F).get(p, []) if g["crate"] == "tx3_cardano" and not is_derive(g)]
+            if not callers or f["def_kind"] == "Closure":
+                res.add([finding("R-INDEX", key, w, "the redeemer's tag is not a single constant (it is a parameter of a function nothing calls)")])
+                continue
+            for g, ct in callers:
+                def want_(t_, callee, p=p):
+                    return callee["path"] == p
+                _KEEP.append(want_)
+                hi = mir.inline_calls(F, g, want=want_, depth=2)
+                m = 0
+                for bj, sj, s2 in mir.stmts(hi):
+                    rv2 = s2["rv"]
+                    if rv2["k"] == "agg" and rv2.get("adt", "").endswith("::Redeemer") and "index" in rv2.get("fields", []) and hi["blocks"][bj].get("inl") == p:
+                        m += 1
+                        k2 = "%s|redeemer built through %s: index counts the body's items of its tag" % (g.get("owner") or g["path"], p.split("::")[-1])
+                        if judge(hi, s2, k2, where(g, ct["line"])) is None:
+                            res.add([finding("R-INDEX", k2, where(g, ct["line"]), "the redeemer's tag is not a single constant (handed through more than one level of builders)")])
+                if m == 0:
+                    res.add([finding("R-INDEX", "%s|redeemer built through %s" % (g["path"], p.split("::")[-1]), where(g, ct["line"]), "the builder could not be inlined at this call: not judged")])
     res.count("Redeemer constructions", n)
     res.floor("Redeemer constructions", n, 1)
 
@@ -243,10 +335,14 @@ def s_sorted(F, res):
         builds = any(s_["rv"]["k"] == "agg" and s_["rv"].get("adt", "").endswith("::Redeemer") for _, _, s_ in mir.stmts(f))
         if not (builds or re.search(r"\bu32\b", f["locals"][0]) or re.search(r"\busize\b", f["locals"][0])):
             continue
+        # the crate's small helpers inlined (`sorted_unique(keys)`: the sort sits in the helper); only the searches of the
+        # function's own blocks are judged here, a helper's own search is judged where the helper is
+        f0 = f
+        f = mir.inline_calls(F, f0, want=_small_helpers, depth=2)
         du = mir.DefUse(f)
         cfg = mir.CFG(f)
         for bi, t in mir.calls(f):
-            if not is_pos(t):
+            if not is_pos(t) or f["blocks"][bi].get("inl"):
                 continue
             n += 1
             key = "%s|searched list is sorted" % f["path"]
@@ -282,6 +378,11 @@ def s_sorted(F, res):
 
 
 _KEEP = []
+
+
+def _small_helpers(t, callee):
+    return callee["crate"] == "tx3_cardano" and not callee.get("impl_trait") and not callee.get("trait_default") and len(callee["blocks"]) <= 40 and \
+        not any((t2.get("callee") or "").endswith("Iterator::position") for _, t2 in mir.calls(callee))
 
 
 def s_all(F, res):
